@@ -1,7 +1,7 @@
 """Checks decided by the sequential correspondence: C01, C02, C08 (sequential part), C11, and the sequential
 halves used by C05/C09/C12."""
 import hashlib, json, os, shutil, time
-from . import common, gen, seqcheck, shadow
+from . import common, gen, seqcheck, shadow, crosscheck
 
 ORDERS_QUICK = [2, 4, 8, 16, 32, 64]
 ORDERS_THOROUGH = [2, 4, 8, 16, 32, 64, 128, 256]
@@ -80,6 +80,9 @@ LAST = {}
 def run_seq_property(pid, tier, seed, extra_cases=None, level="proof", ncases=None, note=None, post=None, write=True, proj=None):
     t0 = time.time()
     names, done, problems = common.obligations(pid)
+    chk = common.coqchk(run_if_missing=(tier == "thorough"))
+    if chk.get("status") == "failed":
+        problems = problems + ["coqchk rejects the compiled development: " + chk.get("tail", "")[-300:]]
     tmp = vh = None
     viol_count = 0
     coverage = {}
@@ -166,6 +169,16 @@ def run_seq_property(pid, tier, seed, extra_cases=None, level="proof", ncases=No
                 what["proof_obligations_broken"] = problems
             common.violation(pid, dict(kind="seq", **what), found_input=False)
             viol_count = max(1, len(mismatches))
+        # in-Coq cross-check of a sample (kernel evaluation vs extraction vs implementation)
+        xc = None
+        if pid in ("C01", "C02", "C11") and not viol_count:
+            small = [c for c in cases if len(c["ops"]) <= 160 and c["order"] <= 16][:40 if tier == "quick" else 400]
+            xn, xops, xmism, xerr = crosscheck.run(small, go, tmp, limit_ops=4000 if tier == "quick" else 40000)
+            xc = dict(cases=xn, ops=xops, mismatches=xmism, error=xerr)
+            if xerr or xmism:
+                common.violation(pid, dict(kind="seq", correspondence="in-Coq (vm_compute) evaluation of the model vs the implementation's observations",
+                                           mismatch=xmism, error=xerr), found_input=False)
+                viol_count = 1
         # evidence
         nops = sum(len(c["ops"]) for c in cases)
         seen, nontrivial = set(), 0
@@ -189,14 +202,14 @@ def run_seq_property(pid, tier, seed, extra_cases=None, level="proof", ncases=No
         coverage = dict(
             obligations=len(names), discharged=len(done), theorems=names,
             checker_cmd="cd /verif/coq && make -j16 && coqc -Q . GB Properties.v  (Print Assumptions under every theorem; coqchk -silent -o in the thorough tier)",
-            trusted_base=common.TRUSTED_BASE,
+            trusted_base=common.TRUSTED_BASE, coqchk={k: v for k, v in chk.items() if k != "tail"},
             evaluations=nops, cases=len(cases), distinct_nontrivial=nontrivial,
             rule="seeded structured (70%) / uniform (30%) histories over per-case key tables, each run on the Go tree and the extracted Coq model; distinct = different (type, order, key table, ops); non-trivial = at least one node split and (order 2 or) at least one merge observed in the Go snapshots",
             traces_validated_against_impl=len(cases) - len(mismatches),
             correspondence_mismatches=len(mismatches), monitor_violations=len(mon_viol), known_finding_hits=len(known_hits),
             distribution=dict(ops_by_kind=dist_ops, cases_by_type=by_type, cases_by_order=by_order, node_splits_seen=tot_splits, node_merges_seen=tot_merges),
             samples=[dict(type=sample["type"], order=sample["order"], keys=sample["keys"][:8], ops=sample["ops"][:25])],
-            repo_fingerprint=common.repo_fingerprint())
+            repo_fingerprint=common.repo_fingerprint(), in_coq_crosscheck=xc)
         if note:
             coverage["explanation"] = note
         lvl = level if (len(done) == len(names) and names) else "other"
